@@ -47,6 +47,7 @@ func TestVerifCSWorker(t *testing.T) {
 		mu.Unlock()
 	}
 	bound, _ := strconv.Atoi(os.Getenv("VERIF_CS_BOUND"))
+	zzmc.PathOrder = os.Getenv("VERIF_CS_ORDER") == "path"
 	shard, shards := 0, 1
 	fmt.Sscanf(os.Getenv("VERIF_CS_SHARD"), "%d/%d", &shard, &shards) //nolint:errcheck
 	maxExecs, _ := strconv.Atoi(os.Getenv("VERIF_CS_MAXEXECS"))
@@ -78,6 +79,20 @@ type csClassifier func(f zzmc.Failure) (finding string)
 
 // csExplore runs scenario name with at most bound deviations on all cores and merges the results.
 func csExplore(c *runCtx, name string, bound int, deadline time.Time, classify csClassifier) zzmc.Stats {
+	st := csExploreOrder(c, name, bound, deadline, classify, "")
+	if !c.quick() && bound > 1 && time.Now().Before(deadline) {
+		// thorough: the same bound-limited search around a second default schedule (children before later threads)
+		csExploreOrder(c, name, bound-1, deadline, classify, "path")
+	}
+
+	return st
+}
+
+func csExploreOrder(c *runCtx, name string, bound int, deadline time.Time, classify csClassifier, order string) zzmc.Stats {
+	label := name
+	if order != "" {
+		label += " (" + order + " order)"
+	}
 	shards, _ := strconv.Atoi(os.Getenv("VERIF_WORKERS"))
 	if shards <= 0 {
 		shards = 8
@@ -101,7 +116,7 @@ func csExplore(c *runCtx, name string, bound int, deadline time.Time, classify c
 		if classify != nil {
 			finding = classify(f)
 		}
-		c.violation(finding, fmt.Sprintf("[%s, d<=%d] %s", name, bound, f.Msg), map[string]any{"engine": "cs", "scenario": name, "choices": f.Choices, "trace": f.Trace, "variant": "instr"})
+		c.violation(finding, fmt.Sprintf("[%s, d<=%d] %s", label, bound, f.Msg), map[string]any{"engine": "cs", "scenario": name, "order": order, "choices": f.Choices, "trace": f.Trace, "variant": "instr"})
 	}
 	for sh := 0; sh < shards; sh++ {
 		wg.Add(1)
@@ -115,7 +130,7 @@ func csExplore(c *runCtx, name string, bound int, deadline time.Time, classify c
 			}
 			cmd := exec.Command(os.Args[0], childArgs("-test.run", "^TestVerifCSWorker$", "-test.timeout", "0")...) //nolint:gosec
 			cmd.Env = append(os.Environ(), "VERIF_CS_SCEN="+name, "VERIF_CS_BOUND="+strconv.Itoa(bound), fmt.Sprintf("VERIF_CS_SHARD=%d/%d", sh, shards),
-				"VERIF_CHECK=", "VERIF_PROP="+c.prop, "GOMAXPROCS=2", "VERIF_CS_DEADLINE="+strconv.FormatInt(deadline.Unix(), 10))
+				"VERIF_CHECK=", "VERIF_PROP="+c.prop, "VERIF_CS_ORDER="+order, "GOMAXPROCS=2", "VERIF_CS_DEADLINE="+strconv.FormatInt(deadline.Unix(), 10))
 			cmd.ExtraFiles = []*os.File{pw}
 			var stderr bytes.Buffer
 			cmd.Stderr, cmd.Stdout = &stderr, &stderr
@@ -177,7 +192,7 @@ func csExplore(c *runCtx, name string, bound int, deadline time.Time, classify c
 					total.Capped = "a worker died after reporting a deadlock (the bubble could not drain)"
 					mu.Unlock()
 				} else {
-					c.engineError("[%s] CS worker %d/%d died without result: %s", name, sh, shards, tail)
+					c.engineError("[%s] CS worker %d/%d died without result: %s", label, sh, shards, tail)
 				}
 			}
 		}(sh)
@@ -198,16 +213,16 @@ func csExplore(c *runCtx, name string, bound int, deadline time.Time, classify c
 	}
 	c.mu.Lock()
 	scen, _ := c.cov["scenarios"].([]any)
-	c.cov["scenarios"] = append(scen, map[string]any{"name": name, "deviation_bound_completed": bound, "executions": total.Execs, "scheduler_steps": total.Steps,
+	c.cov["scenarios"] = append(scen, map[string]any{"name": label, "deviation_bound_completed": bound, "executions": total.Execs, "scheduler_steps": total.Steps,
 		"distinct_schedules": total.Schedules, "distinct_outcomes": len(total.Outcomes), "outcomes": outs, "max_choice_points": total.MaxChoice, "capped": total.Capped, "failing_executions": total.NFailures})
 	do, _ := c.cov["distinct_outcomes"].(int)
 	c.cov["distinct_outcomes"] = do + len(total.Outcomes)
 	c.mu.Unlock()
 	if total.Capped != "" {
-		c.capHit(fmt.Sprintf("[%s] %s", name, total.Capped))
+		c.capHit(fmt.Sprintf("[%s] %s", label, total.Capped))
 	}
 	if total.Sample != nil {
-		c.sample(map[string]any{"scenario": name, "schedule": strings.Join(total.Sample, " ")})
+		c.sample(map[string]any{"scenario": label, "schedule": strings.Join(total.Sample, " ")})
 	}
 
 	return total
@@ -217,11 +232,13 @@ func csExplore(c *runCtx, name string, bound int, deadline time.Time, classify c
 func csReplay(c *runCtx, raw json.RawMessage) string {
 	var doc struct {
 		Scenario string `json:"scenario"`
+		Order    string `json:"order"`
 		Choices  []int  `json:"choices"`
 	}
 	if err := json.Unmarshal(raw, &doc); err != nil {
 		return "bad replay file: " + err.Error()
 	}
+	zzmc.PathOrder = doc.Order == "path"
 	mk, ok := csScenarios[doc.Scenario]
 	if !ok {
 		return "unknown scenario " + doc.Scenario
